@@ -44,7 +44,7 @@ CLAIMED.update({
     "C13": dict(
         engine="C",
         technique="deterministic simulation: the suite driver as a state machine under scripted p-value streams, a stub Source, simulated clock jumps and source/test faults, checked against a reference decision model with an independent Fisher combination; end-to-end runs with real tests on seeded generators",
-        text="Driver runs: real TestStructure/TestSource/TestBitString/CombinedPValue with stub tests returning scripted p-values (0, 1, ties with both levels, values just above/below thresholds, floats/ints/np.float64, named lists whose sub-tests appear late, InsufficientDataError on the j-th run, a Source that raises); the model predicts per-sub-test states, finished flags, the exact number of rounds and Source pulls, per-test run counts and the return value. A fault sweep kills a cheap suite call with MemoryError at its k-th library function entry and judges the following calls of the same process. End-to-end runs: seeded SHAKE128/PCG64/Philox must pass at 2^20..2^24 bits, the documented weak generators must fail the documented test at the documented sizes, and the decision rule is re-checked on the real p-values.",
+        text="Driver runs: real TestStructure/TestSource/TestBitString/CombinedPValue with stub tests returning scripted p-values (0, 1, ties with both levels, values just above/below thresholds, floats/ints/np.float64, named lists whose sub-tests appear late, InsufficientDataError on the j-th run, a Source that raises); the model predicts per-sub-test states, finished flags, the exact number of rounds and Source pulls, per-test run counts and the return value. A fault sweep kills a cheap suite call with MemoryError at its k-th library function entry and judges the following calls of the same process. End-to-end runs: seeded SHAKE128/PCG64/Philox must pass at 2^20..2^24 bits, the documented weak generators must fail the documented test at the documented sizes, and the decision rule is re-checked on the real p-values. A calibration profile holds 32 single-test suite calls per process lifetime on 2^20 fresh bits (RandomWalk weighted up) and pools the p-values per sub-test over all lifetimes: the count at or below 1e-2, 1e-3, 1e-4 and 1e-5 must be compatible with Bin(N, alpha) at the 1e-9 level (about 14 000 RandomWalk calls in the thorough tier).",
         note="Trusts: mpmath closed form of Fisher's method; near-ties (1e-9 relative) are accepted either way; statistical clauses are sampled over seeds.",
         design_ref="DESIGN.md §4 C13"),
 })
